@@ -119,6 +119,14 @@ CHECKS["C40"] = _bounded(
   "SyntaxError.",
   "bounded; the structural-induction proof planned in DESIGN.md is not built yet", "5/C40")
 
+CHECKS["C34"] = _bounded(
+  "Run-time contract on the real moment.py functions for each of the bundled zones: "
+  "dt_to_ts(ts_to_dt(t)) == t, ts_to_date(date_to_ts(d)) == d, and the offset given to a local "
+  "datetime is one the zone uses within a day of that instant; evaluated at every transition "
+  "+- 20 deltas and at seeded random instants over years 1..9999.",
+  "bounded; whole-second instants; the per-zone deductive encoding of DESIGN.md is not built "
+  "(binary floating point with fractional-minute LMT offsets)", "5/C34")
+
 NOT_APPLICABLE = {
   "C30": "quantifies over interpreter configurations (PYTHONHASHSEED) and relates two separate "
          "processes; no pre/postcondition on a call inside one process can mention the hash seed "
